@@ -52,8 +52,8 @@ TRUSTED = [
     "registrations (C18_outline_visit / _files_complete / _children, unconditional since C18_outline_slice_total) and additionally covered by the "
     "generator oracle (expected outline known by construction)",
     "C18_outline_in_text / C18_outline_children_in_text only: group bridge's coq/model/Pipeline.v (texts -> workspace) and its theorem PipelineProofs.analyze_wf, over the generated "
-    "grammar / accessor tables coq/gen/GenGrammar.v, GenAst.v, GenLexTables.v as regenerated by C01/C02/C04/C15's translators (not re-run here; a stale "
-    "table shows up as a disagreement between the bridge's AST and the harness AST above)",
+    "grammar / accessor / lexer tables coq/gen/GenGrammar.v, GenAst.v, GenLexTables.v, GenUnicode.v, GenLexer.v (translators t_grammar, t_ast, "
+    "t_lextables, t_unicode, t_lexer: re-run by this check; they are C01/C02/C04/C15's translators and are tied to the code there)",
 ]
 
 
@@ -103,7 +103,7 @@ def run(ctx):
     bindir = vlib.build_harness(False, bins=["parsedump", "idedump", "coreast"])
     bindir_h = vlib.build_harness(True, bins=["outdump"])
     fails = vlib.proof_step(ctx, "TG.Props.C18", THEOREMS, ["props/C18.vo"], trusted_base=TRUSTED,
-                            translators=["t_tokens", "t_foldkinds"])
+                            translators=["t_tokens", "t_foldkinds", "t_lextables", "t_unicode", "t_lexer", "t_grammar", "t_ast"])
     exe = vlib.build_model("outline")
     sk_index = L.sk_index_table()
     t_setup = time.time() - t0
